@@ -345,6 +345,28 @@ func fallbackKind(p *packages.Package, methods map[string]*ast.FuncDecl, br type
 			}
 			return false, false
 		}
+		// locals of the scanned statements that are defined once (`found := operand.Contains(v)`, also in an if's init)
+		localDef := map[types.Object]ast.Expr{}
+		localWrites := map[types.Object]int{}
+		for _, st := range stmts {
+			ast.Inspect(st, func(n ast.Node) bool {
+				if as, ok := n.(*ast.AssignStmt); ok && len(as.Lhs) == len(as.Rhs) {
+					for i, l := range as.Lhs {
+						if id, ok := l.(*ast.Ident); ok {
+							o := info.Defs[id]
+							if o == nil {
+								o = info.Uses[id]
+							}
+							if o != nil {
+								localWrites[o]++
+								localDef[o] = as.Rhs[i]
+							}
+						}
+					}
+				}
+				return true
+			})
+		}
 		// membership(cond): +1 the condition holds exactly when the operand contains the value, -1 exactly when it does not
 		var membership func(e ast.Expr) int
 		membership = func(e ast.Expr) int {
@@ -353,6 +375,10 @@ func fallbackKind(p *packages.Package, methods map[string]*ast.FuncDecl, br type
 				return 1
 			}
 			switch x := e.(type) {
+			case *ast.Ident:
+				if o := info.Uses[x]; o != nil && localWrites[o] == 1 {
+					return membership(localDef[o])
+				}
 			case *ast.UnaryExpr:
 				if x.Op == token.NOT {
 					return -membership(x.X)
@@ -403,6 +429,35 @@ func fallbackKind(p *packages.Package, methods map[string]*ast.FuncDecl, br type
 						}
 					}
 				case *ast.CallExpr:
+					// a package-level helper handed the operand
+					if fid, ok := ast.Unparen(x.Fun).(*ast.Ident); ok && depth < 2 {
+						if callee := calleeOf(info, x); callee != nil && callee.Pkg() == p.Types {
+							if hd := FuncDecls(p)[callee.Name()]; hd != nil && hd.Recv == nil && hd.Body != nil && hd.Type.Params != nil {
+								_ = fid
+								var params []types.Object
+								for _, pl := range hd.Type.Params.List {
+									for _, nm := range pl.Names {
+										params = append(params, info.Defs[nm])
+									}
+								}
+								var innerOperand types.Object
+								innerConsts := map[types.Object]bool{}
+								for i, a := range x.Args {
+									if i >= len(params) {
+										break
+									}
+									if aid, ok := ast.Unparen(a).(*ast.Ident); ok && info.Uses[aid] == operand {
+										innerOperand = params[i]
+									} else if b, ok := boolConst(a); ok {
+										innerConsts[params[i]] = b
+									}
+								}
+								if innerOperand != nil {
+									scan(hd.Body.List, innerOperand, nil, innerConsts, depth+1, false)
+								}
+							}
+						}
+					}
 					if sel, ok := x.Fun.(*ast.SelectorExpr); ok {
 						if sel.Sel.Name == "Each" {
 							if id, ok := ast.Unparen(sel.X).(*ast.Ident); ok && info.Uses[id] == operand {
@@ -428,7 +483,7 @@ func fallbackKind(p *packages.Package, methods map[string]*ast.FuncDecl, br type
 						}
 						// a helper method called on the receiver with the operand among its arguments
 						if id, ok := ast.Unparen(sel.X).(*ast.Ident); ok && info.Uses[id] == recv && depth < 2 {
-							if hd := methods[sel.Sel.Name]; hd != nil && hd.Body != nil && hd.Type.Params != nil {
+							if hd := methods[sel.Sel.Name]; hd != nil && hd.Body != nil && hd.Type.Params != nil && calleeOf(info, x) != nil && calleeOf(info, x).Pkg() == p.Types {
 								var params []types.Object
 								for _, pl := range hd.Type.Params.List {
 									for _, nm := range pl.Names {
@@ -519,6 +574,7 @@ func checkWrapper(r *Run, p *packages.Package, tname, ifaceName, ctorName string
 		id, ok := ast.Unparen(sel.X).(*ast.Ident)
 		return ok && info.Uses[id] == recvObj(p, fd)
 	}
+	viewHelpers := map[*ast.FuncDecl]bool{} // private methods judged as the body of the interface methods that delegate to them
 	for i := 0; i < iface.NumMethods(); i++ {
 		im := iface.Method(i)
 		construct := tname + "." + im.Name()
@@ -529,6 +585,64 @@ func checkWrapper(r *Run, p *packages.Package, tname, ifaceName, ctorName string
 		}
 		body := fd.Body.List
 		why := ""
+		// a method whose whole body hands its parameters to a private method of the wrapper (`s.combine(other, Duplex[T].And)`)
+		// is judged by that method's body: its parameters stand for the arguments, a parameter bound to a method expression
+		// stands for that method
+		view := fd
+		aliasOf := map[types.Object]types.Object{}
+		methodValue := map[types.Object]string{}
+		alias := func(o types.Object) types.Object {
+			if a, ok := aliasOf[o]; ok {
+				return a
+			}
+			return o
+		}
+		if len(body) == 1 {
+			var sole *ast.CallExpr
+			switch st := body[0].(type) {
+			case *ast.ExprStmt:
+				sole, _ = st.X.(*ast.CallExpr)
+			case *ast.ReturnStmt:
+				if len(st.Results) == 1 {
+					sole, _ = ast.Unparen(st.Results[0]).(*ast.CallExpr)
+				}
+			}
+			if sole != nil {
+				if sel, ok := sole.Fun.(*ast.SelectorExpr); ok {
+					if id, ok := ast.Unparen(sel.X).(*ast.Ident); ok && info.Uses[id] == recvObj(p, fd) {
+						isIfaceMethod := false
+						for k := 0; k < iface.NumMethods(); k++ {
+							if iface.Method(k).Name() == sel.Sel.Name {
+								isIfaceMethod = true
+							}
+						}
+						if hd := methods[sel.Sel.Name]; hd != nil && !isIfaceMethod && hd.Body != nil && hd.Type.Params != nil {
+							var hparams []types.Object
+							for _, pl := range hd.Type.Params.List {
+								for _, nm := range pl.Names {
+									hparams = append(hparams, info.Defs[nm])
+								}
+							}
+							if len(hparams) == len(sole.Args) {
+								for k, a := range sole.Args {
+									switch av := ast.Unparen(a).(type) {
+									case *ast.Ident:
+										aliasOf[hparams[k]] = info.Uses[av]
+									case *ast.SelectorExpr:
+										if tv, ok := info.Types[av.X]; ok && tv.IsType() {
+											methodValue[hparams[k]] = av.Sel.Name
+										}
+									}
+								}
+								view = hd
+								body = hd.Body.List
+								viewHelpers[hd] = true
+							}
+						}
+					}
+				}
+			}
+		}
 		// optional prologue, before the lock is taken: `<local> := <package function>(<parameter>)` — the operand helper
 		prologue := map[types.Object]types.Object{} // local -> the parameter it was made from
 		var helpers []*types.Func
@@ -550,7 +664,7 @@ func checkWrapper(r *Run, p *packages.Package, tname, ifaceName, ctorName string
 			if _, isParam := info.Uses[argID].(*types.Var); !isParam {
 				break
 			}
-			prologue[info.Defs[lhsID]] = info.Uses[argID]
+			prologue[info.Defs[lhsID]] = alias(info.Uses[argID])
 			helpers = append(helpers, fn)
 			body = body[1:]
 		}
@@ -562,12 +676,12 @@ func checkWrapper(r *Run, p *packages.Package, tname, ifaceName, ctorName string
 				why = "first statement is not s.lock.Lock()"
 			} else if call, ok := es.X.(*ast.CallExpr); !ok {
 				why = "first statement is not s.lock.Lock()"
-			} else if sel, ok := call.Fun.(*ast.SelectorExpr); !ok || sel.Sel.Name != "Lock" || !isSel(fd, sel.X, lock) {
+			} else if sel, ok := call.Fun.(*ast.SelectorExpr); !ok || sel.Sel.Name != "Lock" || !isSel(view, sel.X, lock) {
 				why = "first statement is not s.lock.Lock()"
 			}
 			if ds, ok := body[1].(*ast.DeferStmt); !ok {
 				why = "second statement is not defer s.lock.Unlock()"
-			} else if sel, ok := ds.Call.Fun.(*ast.SelectorExpr); !ok || sel.Sel.Name != "Unlock" || !isSel(fd, sel.X, lock) {
+			} else if sel, ok := ds.Call.Fun.(*ast.SelectorExpr); !ok || sel.Sel.Name != "Unlock" || !isSel(view, sel.X, lock) {
 				why = "second statement is not defer s.lock.Unlock()"
 			}
 			// 3: delegate
@@ -598,8 +712,14 @@ func checkWrapper(r *Run, p *packages.Package, tname, ifaceName, ctorName string
 					}
 				}
 				sel, ok := inner.Fun.(*ast.SelectorExpr)
+				// `operation(s.provider, operand)` with operation standing for the method expression Duplex[T].M
+				if fid, isID := ast.Unparen(inner.Fun).(*ast.Ident); isID && methodValue[info.Uses[fid]] != "" && len(inner.Args) >= 1 {
+					sel = &ast.SelectorExpr{X: inner.Args[0], Sel: &ast.Ident{NamePos: fid.Pos(), Name: methodValue[info.Uses[fid]]}}
+					ok = true
+					inner = &ast.CallExpr{Fun: sel, Lparen: inner.Lparen, Args: inner.Args[1:], Rparen: inner.Rparen}
+				}
 				switch {
-				case !ok || !isSel(fd, sel.X, provider):
+				case !ok || !isSel(view, sel.X, provider):
 					why = "does not call the wrapped provider"
 				case sel.Sel.Name != im.Name():
 					why = fmt.Sprintf("delegates to %s instead of %s", sel.Sel.Name, im.Name())
@@ -620,7 +740,7 @@ func checkWrapper(r *Run, p *packages.Package, tname, ifaceName, ctorName string
 					} else {
 						for k, a := range inner.Args {
 							id, ok := ast.Unparen(a).(*ast.Ident)
-							if !ok || (info.Uses[id] != params[k] && prologue[info.Uses[id]] != params[k]) {
+							if !ok || (alias(info.Uses[id]) != params[k] && prologue[info.Uses[id]] != params[k]) {
 								why = "delegate is not called with the method's parameters in order"
 								continue
 							}
@@ -652,6 +772,9 @@ func checkWrapper(r *Run, p *packages.Package, tname, ifaceName, ctorName string
 		for _, d := range f.Decls {
 			fd, ok := d.(*ast.FuncDecl)
 			if !ok || fd.Body == nil {
+				continue
+			}
+			if viewHelpers[fd] {
 				continue
 			}
 			if fd.Recv != nil && recvTypeName(fd.Recv.List[0].Type) == tname {
